@@ -27,24 +27,13 @@ def SInv (t : Ty) (y : DSys) : Prop :=
 def CInv (y : DSys) : Prop :=
   ∀ x, x ∈ y.cwant ↔ x ∈ applyChange (foldMsgs y.applied y.c2s) y.pendSub y.pendUnsub
 
-/-- First request of the type on the stream, of any accepted shape (also a NACK that carries a change). -/
-theorem delta_first_record_any (s : State) (r : DReq) (hnone : s r.ty = none)
-    (hacc : r.err = none ∨ r.carries = true) (hm : r.ty.managed = false) :
+/-- First request of the type on the stream, of any shape (also one that carries `error_detail`). -/
+theorem delta_first_record_any (s : State) (r : DReq) (hnone : s r.ty = none) (hm : r.ty.managed = false) :
     ∃ b s' w, shouldRespondDelta s r = .out b s' ∧ s' r.ty = some w ∧
       ∀ x, x ∈ w.names ↔ ((x ∈ r.sub ∨ x ∈ r.init) ∧ x ∉ r.unsub ∧ x ≠ "*") := by
-  have hform : shouldRespondDelta s r = deltaFirst s r := by
-    unfold shouldRespondDelta shouldRespondDeltaG
-    cases he : r.err with
-    | none => simp [hnone]
-    | some msg =>
-      have hc : r.carries = true := by
-        rcases hacc with h | h
-        · rw [he] at h; cases h
-        · exact h
-      simp [hnone, hc]
-  refine ⟨true, s.set r.ty (some { names := (deltaWatched [] r).1, wildcard := (deltaWatched [] r).2.1 }),
-    { names := (deltaWatched [] r).1, wildcard := (deltaWatched [] r).2.1 }, ?_, State.set_same _ _ _, ?_⟩
-  · rw [hform]; simp [deltaFirst, hm]
+  refine ⟨true, _, { names := (deltaWatched [] r).1, wildcard := (deltaWatched [] r).2.1 },
+    delta_unwatched_is_first_request s r hnone, ?_, ?_⟩
+  · simp [hm]
   · intro x
     rw [mem_deltaWatched]; simp
 
@@ -72,34 +61,15 @@ theorem sinv_serverRecv (t : Ty) (hm : t.managed = false) (y : DSys) (n : String
         simp [DMsg.toReq]
       | none =>
         rw [hs] at h
-        by_cases hacc : m.err = none ∨ (m.toReq t).carries = true
-        · obtain ⟨b, s', w, hr, hw, hmem⟩ := delta_first_record_any y.srv (m.toReq t) (by simpa [DMsg.toReq] using hs)
-            (by simpa [DMsg.toReq] using hacc) (by simpa [DMsg.toReq] using hm)
-          left
-          refine ⟨w, by rw [hr]; simpa [DRes.state, DMsg.toReq] using hw, ?_, ?_⟩
-          · intro hstar
-            exact ((hmem "*").mp hstar).2.2 rfl
-          · intro x
-            rw [hmem x, mem_applyChange, h]
-            simp [DMsg.toReq]
-        · right
-          have he : ∃ msg, m.err = some msg := by
-            cases he : m.err with
-            | none => exact absurd (Or.inl he) hacc
-            | some msg => exact ⟨msg, rfl⟩
-          obtain ⟨msg, he⟩ := he
-          have hcf : (m.toReq t).carries = false := by
-            cases hcc : (m.toReq t).carries
-            · rfl
-            · exact absurd (Or.inr hcc) hacc
-          obtain ⟨hsub, hunsub⟩ := (carries_false_iff _).mp hcf
-          have hsub' : m.sub = [] := by simpa [DMsg.toReq] using hsub
-          have hunsub' : m.unsub = [] := by simpa [DMsg.toReq] using hunsub
-          refine ⟨?_, ?_⟩
-          · rw [delta_nack_silent y.srv (m.toReq t) msg (by simpa [DMsg.toReq] using he) hcf]
-            have : y.srv (m.toReq t).ty = none := by simpa [DMsg.toReq] using hs
-            simp [this, DRes.state, hs]
-          · rw [h, hsub', hunsub']; rfl
+        obtain ⟨b, s', w, hr, hw, hmem⟩ := delta_first_record_any y.srv (m.toReq t) (by simpa [DMsg.toReq] using hs)
+          (by simpa [DMsg.toReq] using hm)
+        left
+        refine ⟨w, by rw [hr]; simpa [DRes.state, DMsg.toReq] using hw, ?_, ?_⟩
+        · intro hstar
+          exact ((hmem "*").mp hstar).2.2 rfl
+        · intro x
+          rw [hmem x, mem_applyChange, h]
+          simp [DMsg.toReq]
     cases hres : shouldRespondDelta y.srv (m.toReq t) with
     | crash => exact absurd hres (never_crashes_delta _ _)
     | out b s' =>
